@@ -98,6 +98,8 @@ def main(ctx, replay=None):
             kw = dict(lattice=bool(n % 2), interpolator=str(rng.choice(["lsq_poly", "spline", "lagrange", "krogh"])), order=3,
                       settings={"NT": int(rng.integers(3, 9)), "DT": float(rng.choice([50, 100, 250])), "T_MIN": float(rng.choice([0, 0, 100, 300])),
                                 "NTV": int(rng.integers(7, 15))})
+            if n % 4 == 1:
+                kw["nv_static"] = 4                       # the smallest static table the cubic fit admits
             ds = system_dataset(rng, exports, arg, **kw) if kind == "sys" else free_dataset(rng, extra_shear=arg, **kw)
             d = wd.sub(f"case{n}")
             ds.fit_pressure_window(d)
@@ -159,7 +161,7 @@ def check_case(ctx, ds, calc, desc, insts):
         # outside the sampled volumes the cubic fit of the axis lengths extrapolates (the model function is not in its class there)
         inside = (v <= ds.static_volumes.max() * 0.98) & (v >= ds.static_volumes.min() * 1.02)
         tol[~inside] = numpy.inf
-    if numpy.any(numpy.abs(frac - want) > tol[:, None]):
+    if not numpy.all(numpy.abs(frac - want) <= tol[:, None]):
         dev = numpy.where(numpy.isfinite(tol)[:, None], numpy.abs(frac - want), 0.0)
         i = int(numpy.argmax(numpy.max(dev, axis=1)))
         ctx.violation(f"axial strain fractions at volume #{i} are {frac[i].tolist()}, the files give {want[i].tolist()}", desc, {**sig, "clause": "strains"})
@@ -171,7 +173,7 @@ def check_case(ctx, ds, calc, desc, insts):
     p_exact = 1.5 * ds.k0 * (x ** 7 - x ** 5) * (1.0 + 0.75 * (ds.kp - 4.0) * (x ** 2 - 1.0))
     pst = numpy.asarray(calc.static_p_array)
     inner = slice(1, -1)
-    if numpy.max(numpy.abs(pst[inner] - p_exact[inner])) > 0.02 * numpy.max(numpy.abs(p_exact)) + 1e-7:
+    if not numpy.max(numpy.abs(pst[inner] - p_exact[inner])) <= 0.02 * numpy.max(numpy.abs(p_exact)) + 1e-7:
         i = int(numpy.argmax(numpy.abs(pst[inner] - p_exact[inner]))) + 1
         ctx.violation(f"static pressure at volume #{i} is {pst[i] * consts.RY_BOHR3_TO_GPA:.3f} GPa, -dE/dV of the static energies is "
                       f"{p_exact[i] * consts.RY_BOHR3_TO_GPA:.3f} GPa", desc, {**sig, "clause": "static_pressure"})
